@@ -8,6 +8,7 @@ import (
 	"context"
 	"fmt"
 	"strings"
+	"sync"
 
 	log "github.com/go-spring/log"
 )
@@ -102,6 +103,63 @@ func c11Worker(w *W) {
 			}
 		}
 	}
+	// concurrent phase (not in the race build: the generated sites store their marker in a shared table): G goroutines run
+	// every site in different orders; the lookup caches are shared between goroutines, the expected location of a site is
+	// the one established above
+	if w.Spec.Flavour != "race" {
+		for _, fast := range []string{"true", "false"} {
+			cfg := map[string]string{"appender.rec.type": "VRec", "logger.lg.type": "Logger", "logger.lg.tags": "c11tag", "logger.lg.appenderRef.ref": "rec", "enableCaller": "true", "fastCaller": fast}
+			if err := log.Refresh(cfg); err != nil {
+				w.Violate("C11:refresh-failed", "Refresh failed: "+err.Error(), cfg)
+				log.Destroy()
+				continue
+			}
+			const G, R = 8, 12
+			var wg sync.WaitGroup
+			for g := 0; g < G; g++ {
+				wg.Add(1)
+				go func(g int) {
+					defer wg.Done()
+					r := newRng(w.Spec.Seed, uint64(1000+g))
+					for rep := 0; rep < R; rep++ {
+						for _, i := range r.Perm(len(c11sites)) {
+							s := c11sites[i]
+							if pv, st := catch(func() { s.run(ctx, tag) }); pv != nil {
+								w.Violate("C11:log-call-panic", fmt.Sprintf("site %d (%s/%s) panicked under concurrency: %v\n%s", i, s.entry, s.shape, pv, trunc(st, 800)), nil)
+							}
+						}
+					}
+				}(g)
+			}
+			wg.Wait()
+			log.Destroy()
+			mode := map[string]string{"true": "fast", "false": "default"}[fast]
+			okN := 0
+			for _, it := range rec.take() {
+				var n int
+				fmt.Sscanf(idOf(it.JSON), "id-c11-%d", &n)
+				if n < 0 || n >= len(c11sites) {
+					continue
+				}
+				s := c11sites[n]
+				w.Eval(1)
+				want, ok := seenLoc[n]
+				if !ok {
+					continue
+				}
+				if got := fmt.Sprintf("%s:%d", it.File, it.Line); got != want {
+					w.Violate("C11:wrong-location:"+mode+":concurrent", fmt.Sprintf("site %d (%s in shape %s, %s mode, %d goroutines running all sites): record says %s, the statement is at %s", n, s.entry, s.shape, mode, G, got, want),
+						map[string]any{"site": n, "entry": s.entry, "shape": s.shape, "fastCaller": fast, "goroutines": G})
+					continue
+				}
+				okN++
+			}
+			w.Count("concurrent_observations_matched", int64(okN))
+			if okN > 0 {
+				w.Distinct("concurrent|" + mode)
+			}
+		}
+	}
 	// leave defaults
 	_ = log.Refresh(map[string]string{"appender.rec.type": "VRec", "enableCaller": "true", "fastCaller": "false"})
 	log.Destroy()
@@ -128,6 +186,7 @@ func init() {
 		ID: "C11", Level: "exploration", MinDistinct: 300, Worker: c11Worker,
 		Rule: "programs: a generated source file with 168 call sites = 15 entry points x 11 call shapes (plain, closure, deferred closure, goroutine closure, function value, method, method value, generic helper instantiated twice, small inlinable helper, and two shapes placed beyond line 65535 through //line directives) + Record through wrappers with skip 1, 2 and 3; " +
 			"each site marks its own location with runtime.Caller on the same source line (inlinable helpers: static //line position). The file is compiled three ways (default, -gcflags=all=-l, -race) and every site runs 3x (cache miss, then hits) under Refresh-set enableCaller x fastCaller in the order on/default, on/fast, off, off, on/fast, on/default, alternating sync and async loggers (so pooled events are recycled across modes). " +
+			"Afterwards (default and no-inlining builds) 8 goroutines run all sites 12x in different orders in fast and in default mode: the lookup caches are shared, every record must still carry its own site's location. " +
 			"Non-trivial/distinct = distinct (entry point, shape, caller on/off, lookup mode) tuples whose record matched, per build flavour.",
 		Assumptions: []string{"'go log.X(...)' and 'defer log.X(...)' written directly (no calling statement frame exists) are not generated"},
 		Run: func(d *D) {
